@@ -5,7 +5,7 @@ import ast
 import re
 
 from .. import paths
-from ..core import FUNC, AnalysisError, call_attr, calls_in, const, dotted, is_const, kwarg, norm, slice_parts, text, walk_local
+from ..core import FUNC, AnalysisError, inert, call_attr, calls_in, const, dotted, is_const, kwarg, norm, slice_parts, text, walk_local
 
 EXPLANATION = [
     'C20.cind-ranges: the gateway announces an indicator\'s values as (min-max) exactly when the set has max-min+1 elements; the hands-free side expands a-b to range(a, b+1).',
@@ -412,6 +412,19 @@ def progress(ctx):
         ex = paths.normal_exits(res)
         bad = [' '.join(w) for v, w in ex.items() if not v]
         R.check(not bad, rule, f'{DLC}.{name}', 'every normal exit has run process_tx', 'a path returns without running process_tx: credits are not returned / queued data is not pumped', p.loc(fn), bad[:3])
+    uih = p.find(f'{DLC}.on_uih_frame')
+    if uih is not None:
+        sinks = [c for c in calls_in(uih) if dotted(c.func) == 'self._sink']
+        ok = bool(sinks)
+        for c in sinks:
+            a, prev, cont = getattr(c, '_parent', None), c, False
+            while a is not None and a is not uih:
+                if isinstance(a, ast.Try) and any(prev is s_ or any(prev is x for x in ast.walk(s_)) for s_ in a.body):
+                    cont = cont or any(h.type is None or text(h.type).split('.')[-1] in ('Exception', 'BaseException') for h in a.handlers)
+                prev, a = a, getattr(a, '_parent', None)
+            ok = ok and cont
+        R.check(ok, rule, f'{DLC}.on_uih_frame | sink call contained', 'an exception raised by the consumer cannot skip the credit accounting and process_tx()',
+                'the consumer of the data link is called outside try/except: when it raises, the received frame is not charged to rx_credits and no credits are returned - the two ledgers diverge and the link wedges', p.loc(uih))
     fn, loop = _process_tx(ctx, rule)
     if loop is not None:
         # the loop condition is the disjunction "can send data" or "must grant credits"
@@ -642,6 +655,9 @@ def ag_once(ctx):
                 if k.startswith('raise:'):
                     tag = k[6:]
                     raises_seen.add(tag)
+                    if tag == 'ValueError':
+                        raises_seen.add('TypeError')  # int()/Enum() of a nested-list parameter
+                        per_handler_raise.setdefault('TypeError', []).append(name)
                     per_handler_raise.setdefault(tag, []).append(name)
                     if v != 0:
                         bad.append(f'{tag} may be raised after {v} final result code(s) were sent ({" ".join(w)})')
@@ -1052,6 +1068,26 @@ def negotiated_state(ctx):
         cnt += 1
         R.check(bool(real), rule, f'{HF}.initiate_slc | parsed `{name}`', 'flows into state or control', f'`{name}` is parsed from the gateway\'s response but only logged: the state recorded afterwards does not depend on what the gateway reported', p.loc(defs[0]))
     R.check(cnt >= 5, rule, f'{HF}.initiate_slc | parsed values', f'{cnt} parsed locals tracked', f'only {cnt} parsed locals found')
+    # lists reported in parentheses may be empty ("()" parses to one empty item): items are tested before conversion
+    n_lists = 0
+    for node in ast.walk(slc):
+        it = elt = None
+        conv_guarded = True
+        if isinstance(node, ast.ListComp) and norm(node.generators[0].iter) == 'response.parameters[0]':
+            it = node.generators[0]
+            var = dotted(it.target)
+            converts = any(isinstance(c, ast.Call) and any(isinstance(x, ast.Name) and x.id == var for x in ast.walk(c)) for c in ast.walk(node.elt))
+            conv_guarded = (not converts) or any(norm(t) in (var, f'{var} != b\'\'', f'len({var}) > 0') for t in it.ifs)
+            n_lists += 1
+        elif isinstance(node, ast.For) and norm(node.iter) == 'response.parameters[0]':
+            var = dotted(node.target)
+            first = next((s_ for s_ in node.body if not inert(s_)), None)
+            conv_guarded = isinstance(first, ast.If) and norm(first.test) in (f'not {var}', f'{var} == b\'\'') and paths._always_leaves(first.body)
+            n_lists += 1
+        else:
+            continue
+        R.check(conv_guarded, rule, f'{HF}.initiate_slc | list `{norm(node.iter if isinstance(node, ast.For) else node.generators[0].iter)}` #{n_lists}', 'empty items are skipped before conversion',
+                'items of a parenthesised list are converted without testing for the empty item an empty list "()" produces: the service-level connection fails when the peer\'s list is empty', p.loc(node))
     # positional/keyword construction of AgIndicatorState carries index and values
     c = next((c for c in calls_in(slc) if dotted(c.func) == 'AgIndicatorState'), None)
     if c is not None:
@@ -1142,7 +1178,8 @@ VARIANTS = [
     ('acceptor swaps tx and rx frame size', 'bumble/rfcomm.py', "                            tx_max_frame_size=pn.max_frame_size,\n                            tx_initial_credits=pn.initial_credits,\n                            rx_max_frame_size=dlc_params[0],", "                            tx_max_frame_size=dlc_params[0],\n                            tx_initial_credits=pn.initial_credits,\n                            rx_max_frame_size=pn.max_frame_size,", 'fire', 'C20.negotiation'),
     ('PN response advertises tx credits', 'bumble/rfcomm.py', "            initial_credits=self.rx_initial_credits,", "            initial_credits=self.tx_credits,", 'fire', 'C20.negotiation'),
     ('CMER error falls through to OK', 'bumble/hfp.py', "            self.send_cme_error(CmeError.INVALID_INDEX)\n            return\n\n        self.indicator_report_enabled", "            self.send_cme_error(CmeError.INVALID_INDEX)\n\n        self.indicator_report_enabled", 'fire', 'C20.ag-once'),
-    ('handler exceptions not contained', 'bumble/hfp.py', "                except (ValueError, KeyError):\n                    # The handlers validate", "                except (KeyError,):\n                    # The handlers validate", 'fire', 'C20.ag-once'),
+    ('handler exceptions not contained', 'bumble/hfp.py', "                except Exception:\n                    # The handlers validate", "                except (KeyError,):\n                    # The handlers validate", 'fire', 'C20.ag-once'),
+    ('only value errors contained', 'bumble/hfp.py', "                except Exception:\n                    # The handlers validate", "                except (ValueError, KeyError):\n                    # The handlers validate", 'fire', 'C20.ag-once'),
     ('OK before conversion', 'bumble/hfp.py', "        state = VoiceRecognitionState(int(vrec))\n        self.send_ok()\n", "        self.send_ok()\n        state = VoiceRecognitionState(int(vrec))\n", 'fire', 'C20.ag-once'),
     ('HF sends CMER with five fields', 'bumble/hfp.py', 'await self.execute_command("AT+CMER=3,,,1")', 'await self.execute_command("AT+CMER=3,,,1,0")', 'fire', 'C20.hf-coverage'),
     ('HF emits a command without handler', 'bumble/hfp.py', 'await self.execute_command("AT+BCC")', 'await self.execute_command("AT+BCCX")', 'fire', 'C20.hf-coverage'),
